@@ -172,6 +172,13 @@ func checkC12(c *Ctx) {
 	r := c.diffRel()
 	checkDiffsTo(c, r)
 	checkSideMixing(c, "C12.R3.side-mixing", r)
+	// totality also covers sizes handed to make, and a report file that is not truncated shows
+	// the differences of an earlier run next to "no changes"
+	c.Rule("C12.R1.make-size", "no make(…) in the diff package takes an unguarded difference as size; the report destination is opened truncated", 1)
+	checkMakeSizes(c, "C12.R1.make-size", pk)
+	if cmds := c.Prog("./cmd/swagger/commands/diff", "./cmd/swagger/commands").Pkg(load.PkgCommands); cmds != nil {
+		checkOpenTruncates(c, "C12.R1.make-size", cmds, []string{"DiffCommand.Execute"}, 1)
+	}
 	c.Rule("C12.R3.difference-trigger", "every difference emission is control-dependent (locally or at every call site) on a relational trigger of difference polarity: a spec never differs from itself", 55)
 	for _, bs := range bindSites(c, r, "C12.R3.difference-trigger") {
 		trigs := bs.Derived
